@@ -411,7 +411,8 @@ PLANS["C19"] = {
     "rule": ("cases = histories of 5..40 module calls in a fresh process: add_trusted_path (none yet / first / second device, either device first), "
              "observe_file_time and maybe_observe_file_time on {old file created before trust, file whose change-time was bumped by chmod just before the "
              "call} x {device A, device B}, /proc/self/stat, /dev/null and the trusted path itself, scan_base_time, get_base_time(now) with now in "
-             "{base-10 s, base, base+1993 ms, base+1994 ms, base+1 h}, get_base_time_unlocked, and sleeps of 1..4 ms or 101 ms (the refresh throttle). "
+             "{base-10 s, base, base+1993 ms, base+1994 ms, base+1 h}, get_base_time_unlocked, sleeps of 1..4 ms or 101 ms (the refresh throttle), and "
+             "replacing a registered trusted path by a symlink to a fresh file on the other device (a mount that moved; a refresh may then fail, but must not believe the new device). "
              "Oracle after every call: get_base_time_unlocked().0 never decreases; if it changed, the new value equals the change-time (ms) the "
              "harness itself reads from one of the files this call could have stat-ed on a device that was trusted before the call or is being "
              "registered by it; observe_file_time returns None for every other device and Some((that file's change-time, voucher)) for trusted ones; "
@@ -423,7 +424,7 @@ PLANS["C19"] = {
                     "one history per process because the module state is process-global"],
     "required_features": ["nfs.base_time_moved", "nfs.untrusted_device_reported_nothing", "nfs.pseudo_fs_reported_nothing",
                           "nfs.older_trusted_file_did_not_move_base", "nfs.get_base_time_refreshed", "nfs.get_base_time_did_not_refresh",
-                          "nfs.calls_before_any_trust", "nfs.second_device_trusted"],
+                          "nfs.calls_before_any_trust", "nfs.second_device_trusted", "nfs.trusted_path_swapped_to_other_device"],
     "quick": [R("nfs", "dbg", shards=960, parallel=64, cases=960)],
     "thorough": [R("nfs", "dbg", shards=4000, parallel=64, cases=4000),
                  R("nfs", "rel", shards=1000, parallel=64, cases=1000)],
@@ -490,11 +491,13 @@ PLANS["C10"] = {
     "assumptions": ["unbounded stream length restated as: flat observed maxima at several lengths under one fixed constant (8 MiB)",
                     "the counters are process-wide, so each history runs in a single-threaded process"],
     "required_features": ["iovec.drop_accounting_checked", "codec.drop_accounting_checked", "stream.drop_accounting_checked", "stream.drained_every_call",
-                          "stream.pipeline", "iovec.clones", "iovec.takes", "iovec.held_anchored_slice_pushed_later"],
+                          "stream.pipeline", "iovec.clones", "iovec.takes", "iovec.held_anchored_slice_pushed_later",
+                          "stream.records_through_one_stream_reader", "stream.records_through_recycled_decoder"],
     "quick": [R("iovec", "dbg", cases=200000, focus="C10"),
               R("codec", "dbg", mode="random", prod_cases=20000, tiny_cases=200000),
               R("stream", "dbg", mode="chunker,reader", chunk_cases=200000, reader_cases=200000),
               R("codec-stream", "rel", shards=16, streams=96, mib=16, big_mib=64, focus="C10"),
+              R("record-stream", "rel", shards=16, streams=32, mib=24),
               R("iovec", "asan", cases=8000, focus="C10", san_props=["C10", "C05"])],
     "thorough": [R("iovec", "dbg", cases=3000000, focus="C10"),
                  R("iovec", "rel", cases=6000000, focus="C10"),
@@ -502,6 +505,8 @@ PLANS["C10"] = {
                  R("stream", "dbg", mode="chunker,reader,logs", chunk_cases=3000000, reader_cases=3000000, log_cases=400),
                  R("codec-stream", "rel", shards=16, streams=256, mib=64, big_mib=1024, focus="C10"),
                  R("codec-stream", "dbg", shards=16, streams=64, mib=16, big_mib=64, focus="C10"),
+                 R("record-stream", "rel", shards=16, streams=128, mib=256),
+                 R("record-stream", "dbg", shards=16, streams=32, mib=24),
                  R("iovec", "asan", cases=400000, focus="C10", san_props=["C10", "C05"]),
                  R("stream", "asan", mode="chunker,reader", chunk_cases=200000, reader_cases=200000, san_props=["C10", "C05"])],
 }
